@@ -269,6 +269,54 @@ theorem step_phase {ye : Nat} {h h' : Sys} {t : Nat} {o : Obs} (hs : step ye h t
       obtain ⟨rfl, rfl⟩ := hs
       simp [PhaseTr, Pc.phase, phaseAt, pcAt, ht, Sys.setLock, lockName]
 
+/-- own steps left until a reader has its snapshot pinned -/
+def preA : Pc → Nat
+  | .idle => 3
+  | .rInc .. => 2
+  | .rData .. => 1
+  | _ => 0
+
+/-- each step of `read()` brings the pin one step closer -/
+theorem step_preA {ye : Nat} {h h' : Sys} {t : Nat} {o : Obs} (hs : step ye h t = some (h', o))
+    (hp : phaseAt h t = .idle ∨ ∃ u, phaseAt h t = .rPre u)
+    (hp' : (∃ u, phaseAt h' t = .rPre u) ∨ ∃ q u, phaseAt h' t = .rHold q u) :
+    preA (pcAt h' t) + 1 = preA (pcAt h t) := by
+  unfold step at hs
+  cases hth : h.threads[t]? with
+  | none => simp [hth] at hs
+  | some th =>
+    obtain ⟨ht, rfl⟩ := List.getElem?_eq_some_iff.1 hth
+    simp only [hth] at hs
+    simp only [phaseAt, pcAt, hth] at hp
+    cases hpc : (h.threads[t]).pc with
+    | idle =>
+      simp only [hpc] at hs
+      cases hsc : (h.threads[t]).script with
+      | nil => simp [hsc] at hs
+      | cons c rest =>
+        cases c with
+        | read uses =>
+          simp only [hsc, Option.some.injEq, Prod.mk.injEq] at hs
+          obtain ⟨rfl, rfl⟩ := hs
+          simp [pcAt, ht, hpc, preA]
+        | write st bomb =>
+          simp only [hsc] at hs
+          cases hmo : h.mutexOwner with
+          | some w => simp [hmo] at hs
+          | none =>
+            simp only [hmo, Option.some.injEq, Prod.mk.injEq] at hs
+            obtain ⟨rfl, rfl⟩ := hs
+            simp [phaseAt, pcAt, ht, Pc.phase] at hp'
+    | rInc g u =>
+      simp only [hpc, Option.some.injEq, Prod.mk.injEq] at hs
+      obtain ⟨rfl, rfl⟩ := hs
+      simp [pcAt, ht, hpc, preA, Sys.setLock]
+    | rData sl u =>
+      simp only [hpc, Option.some.injEq, Prod.mk.injEq] at hs
+      obtain ⟨rfl, rfl⟩ := hs
+      simp [pcAt, ht, hpc, preA]
+    | _ => rw [hpc] at hp; simp [Pc.phase] at hp
+
 /-- enabledness: the only step that can be refused is taking the writer mutex (and an idle thread
 with nothing to do) -/
 theorem step_enabled (ye : Nat) (h : Sys) (t : Nat) (th : Thread) (hth : h.threads[t]? = some th)
